@@ -662,6 +662,9 @@ def divides_by_constant_zero(ref):
 @matcher("C11")
 def c11_matchers(v, text="", ode=None, ref=None, saved=None, **kw):
     d0 = v.get("detail", {})
+    if v.get("kind") == "saved_file_rejected" and re.search(r"(?<![\w.])zoo(?![\w.(])", d0.get("saved_line") or ""):
+        # zoo only arises from a division by something sympy evaluated to exactly zero (also in one branch of a Conditional)
+        return "C11-division-by-a-constant-zero-is-saved-as-zoo"
     if v.get("kind") == "saved_file_rejected" and re.search(r"(?<![\w.])(zoo|oo|nan)(?![\w.(])", d0.get("saved_line") or "") and divides_by_constant_zero(ref):
         return "C11-division-by-a-constant-zero-is-saved-as-zoo"
     """Counterfactual for the writer: the same model saved with sympy.simplify replaced by the identity
@@ -807,6 +810,10 @@ def c20_matchers(v, text="", ref=None, rhs_row=None, ode=None, evalf=None, **kw)
         # a condition that holds an unevaluated product / quotient with the literal factor 0: sympy's canonicalisation of
         # the relation divides by that coefficient when the intermediates are substituted
         return "C20-literal-zero-factor-in-a-condition-makes-sympy-raise"
+    if v.get("kind") in ("rhs_matrix_raises", "jacobi_matrix_raises") and "Invalid NaN comparison" in (d.get("exc") or ""):
+        # a condition whose operands are all constants once the intermediates are substituted, one of them an unevaluated
+        # product such as -5 = (-1)*5: sympy's canonicalisation of the relation (relational._canonical_coeff) produces nan
+        return "C20-constant-condition-with-an-unevaluated-number-makes-sympy-raise"
     if v.get("kind") == "jacobian_entry" and isinstance(d.get("got"), float) and math.isnan(d["got"]) and rhs_row is not None and evalf is not None and d.get("point"):
         for pw in rhs_row.atoms(sympy.Pow):
             try:
